@@ -425,6 +425,13 @@ func (fc *followerController) append(req *proto.Append, stream proto.OxiaLogRepl
 			slog.Int64("commit-offset", req.CommitOffset),
 			slog.Int64("offset", req.Entry.Offset),
 		)
+		if req.Entry.Offset > fc.wal.LastOffset() {
+			// The entry was appended but is not synced yet: it must not be
+			// acknowledged before it is durable
+			if err := fc.wal.Sync(stream.Context()); err != nil {
+				return err
+			}
+		}
 		if err := stream.Send(&proto.Ack{Offset: req.Entry.Offset}); err != nil {
 			fc.closeStreamNoMutex(err)
 		}
@@ -446,6 +453,9 @@ func (fc *followerController) append(req *proto.Append, stream proto.OxiaLogRepl
 }
 
 func (fc *followerController) handleReplicateSync(stream proto.OxiaLogReplication_ReplicateServer) {
+	// The entries up to here were synced before this stream started
+	oldHeadOffset := fc.wal.LastOffset()
+
 	for {
 		fc.Lock()
 		if err := fc.syncCond.Wait(stream.Context()); err != nil {
@@ -455,14 +465,13 @@ func (fc *followerController) handleReplicateSync(stream proto.OxiaLogReplicatio
 		}
 		fc.Unlock()
 
-		oldHeadOffset := fc.wal.LastOffset()
-
 		if err := fc.wal.Sync(stream.Context()); err != nil {
 			fc.closeStream(err)
 			return
 		}
 
-		// Ack all the entries that were synced in the last round
+		// Ack all the entries that were synced since the last round (also when the
+		// sync itself was done on the duplicated-entry path)
 		newHeadOffset := fc.wal.LastOffset()
 		for offset := oldHeadOffset + 1; offset <= newHeadOffset; offset++ {
 			if err := stream.Send(&proto.Ack{Offset: offset}); err != nil {
@@ -470,6 +479,7 @@ func (fc *followerController) handleReplicateSync(stream proto.OxiaLogReplicatio
 				return
 			}
 		}
+		oldHeadOffset = newHeadOffset
 
 		fc.applyEntriesCond.Signal()
 	}
